@@ -79,7 +79,7 @@ View(x) ==
    nlive  |-> Cardinality(LiveC(x))]
 
 (* ----------------------------- contract -------------------------------- *)
-SlotOps == {"set_shared", "set_persistent", "set_name", "h_copy", "h_move", "h_drop", "write"}
+SlotOps == {"set_shared", "set_persistent", "set_name", "h_copy", "h_move", "h_drop", "write", "touch"}
 MeshOps == CreateOps \cup KernelOps \cup {"property_exists", "set_shared", "set_persistent", "clear_props",
              "clear_all_props", "clear", "set_vertex", "persist_pos", "pos_handle", "mesh_assign", "mesh_destroy"}
 InContract(p, c) ==
